@@ -245,9 +245,13 @@ def _run_pwl(ctx, case, st, rng):
   cm = bool(mono and omin is not None and rng.rand() < .4)
   cx = bool(mono and omax is not None and rng.rand() < .4)
   kp = np.concatenate([[0.0], np.cumsum(rng.choice([.5, 1., 3.], size=nk - 1))])
+  miss_mode = str(rng.choice(["value", "value", "tensor"]))
+  split = bool(units > 1 and rng.rand() < .3)
   layer = tfl.layers.PWLCalibration(input_keypoints=kp.tolist(), units=units, monotonicity=mono, output_min=omin, output_max=omax,
-                                    clamp_min=cm, clamp_max=cx, impute_missing=True, missing_input_value=-5.0)
-  layer(tf.zeros([1, 1]))
+                                    clamp_min=cm, clamp_max=cx, impute_missing=True,
+                                    missing_input_value=-5.0 if miss_mode == "value" else None, split_outputs=split)
+  layer(tf.zeros([1, 1]) if miss_mode == "value" else [tf.zeros([1, 1]), tf.zeros([1, 1])])
+  ctx.cls("pwl:missing=" + miss_mode, "pwl:split=%s" % split)
   lo = 0.0 if cm else 0.1
   hi = 1.0 if cx else 0.9
   if mono == 0:
@@ -260,7 +264,7 @@ def _run_pwl(ctx, case, st, rng):
   layer.kernel.assign(k)
   layer.missing_output.assign(np.full((1, units), 0.5, np.float32))
   ctx.cls("pwl:mono=%d" % mono, "pwl:bounds=" + b, "pwl:clamp=%d%d" % (cm, cx))
-  cfgd = {"mono": mono, "bounds": b, "cm": cm, "cx": cx, "nk": nk, "units": units}
+  cfgd = {"mono": mono, "bounds": b, "cm": cm, "cx": cx, "nk": nk, "units": units, "missing": miss_mode, "split": split}
   _expect(ctx, "assert_constraints/accepts-feasible", verdict(layer, eps), "accept", "PWLCalibration feasible kernel", cfgd)
   keys = []
 
